@@ -270,6 +270,13 @@ class FeArray(np.ndarray):
         else:
             return self.dot(other)
 
+    def __rmatmul__(self, other) -> FeArrayALike:
+        # `plain @ field`: ndarray.__matmul__ would hand the product to np.matmul, which reads
+        # the field's last two axes as a stack of matrices -- (nPg, dim) for a vector field --
+        # whatever its rank. The plain array is a constant tensor held at every Gauss point,
+        # so give it the (1, 1) finite element axes and take the rank-aware path.
+        return FeArray.asfearray(np.asarray(other), broadcastFeArrays=True) @ self
+
     @staticmethod
     @lru_cache(maxsize=16)
     def _dot_subscript(ndim1: int, ndim2: int) -> str:
